@@ -27,10 +27,14 @@ theorem varW_spec (v w : List ℝ) (u nw : Bool) (h : v.length = w.length) :
     varW v w u nw = .ok (Spec.covW v v w u nw) := covW_flags_spec v v w u nw h h
 
 /-- weighted `sd(v, w, unbiased, normalizeWeights) = sqrt(var(v, w, unbiased, normalizeWeights))`,
-options in the same order, for all four pairs -/
-theorem sdW_spec (v w : List ℝ) (u nw : Bool) (h : v.length = w.length) :
-    sdW v w u nw = .ok (Real.sqrt (Spec.covW v v w u nw)) := by
-  unfold sdW; rw [varW_spec v w u nw h]; rfl
+options in the same order, for all four pairs — for a non-negative weighted variance.  (With
+negative weights, or unnormalised weights with `Σw² > 1` and `unbiased`, the variance can be
+negative: the code takes `sqrt` of it and answers NaN, where `Real.sqrt` would say 0.  `_hnn` is not
+used by the proof; it keeps the statement inside the region where the exact reading is faithful.) -/
+theorem sdW_spec (v w : List ℝ) (u nw : Bool) (h : v.length = w.length)
+    (_hnn : 0 ≤ Spec.covW v v w u nw) :
+    sdW v w u nw = .ok (Real.sqrt (Spec.covW v v w u nw)) :=
+  sdW_of_varW v w u nw _ (varW_spec v w u nw h)
 
 /-- unweighted `sd(v, unbiased) = sqrt(var(v, unbiased))` -/
 theorem sd_spec (v : List ℝ) (u : Bool) (hn : (if u then 2 else 1) ≤ v.length) :
@@ -72,9 +76,9 @@ theorem varW_options_not_symmetric :
   norm_num
 
 example : sdW ([1, 2, 4] : List ℝ) [1, 1, 2] false true = .ok (Real.sqrt (27 / 16)) := by
-  rw [sdW_spec [1, 2, 4] [1, 1, 2] false true rfl]
-  simp [Spec.covW, Spec.dot, Spec.dotW, zipWith3]
-  norm_num
+  have hval : Spec.covW ([1, 2, 4] : List ℝ) [1, 2, 4] [1, 1, 2] false true = 27 / 16 := by
+    simp [Spec.covW, Spec.dot, Spec.dotW, zipWith3]; norm_num
+  rw [sdW_spec [1, 2, 4] [1, 1, 2] false true rfl (by rw [hval]; norm_num), hval]
 
 /-- weighted `mean`, both values of the option (when normalising, the weights must not sum to 0:
 there the code divides every weight by zero; the hypothesis is not used by the proof, it restricts
@@ -95,8 +99,11 @@ example : centerW ([1, 2] : List ℝ) [1, 3] true = .ok [1 - 7 / 4, 2 - 7 / 4] :
   rw [centerW_spec [1, 2] [1, 3] true rfl (by intro _; norm_num)]; norm_num
 
 /-- weighted `cor`, both values of the option, is `cov/(sd·sd)` of the biased estimates on the
-weights actually used -/
-theorem corW_spec (v1 v2 w : List ℝ) (nw : Bool) (h1 : v1.length = w.length) (h2 : v2.length = w.length) :
+weights actually used — for non-negative weighted variances (a negative one, possible with
+negative weights, makes the code take `sqrt` of a negative number: NaN) -/
+theorem corW_spec (v1 v2 w : List ℝ) (nw : Bool) (h1 : v1.length = w.length) (h2 : v2.length = w.length)
+    (_hA : 0 ≤ Spec.covW v1 v1 (normW' w nw) false false)
+    (_hB : 0 ≤ Spec.covW v2 v2 (normW' w nw) false false) :
     corW v1 v2 w nw = .ok (
       let wn := normW' w nw
       Spec.covW v1 v2 wn false false /
@@ -107,16 +114,16 @@ theorem corW_spec (v1 v2 w : List ℝ) (nw : Bool) (h1 : v1.length = w.length) (
   unfold corW
   simp only [hwn']
   rw [covW_flags_spec v1 v2 _ false false (h1.trans hwn.symm) (h2.trans hwn.symm),
-      sdW_spec v1 _ false false (h1.trans hwn.symm), sdW_spec v2 _ false false (h2.trans hwn.symm)]
+      sdW_spec v1 _ false false (h1.trans hwn.symm) _hA, sdW_spec v2 _ false false (h2.trans hwn.symm) _hB]
   rfl
 
 /-- a call that leaves the options to their defaults computes the unbiased estimate on normalised
 weights, and the default base of the entropies is the literal `2.7182818` -/
-theorem defaults_spec (v w : List ℝ) (h : v.length = w.length) :
+theorem defaults_spec (v w : List ℝ) (h : v.length = w.length) (hnn : 0 ≤ Spec.covW v v w true true) :
     sdW v w dfltUnbiased dfltNormalizeWeights = .ok (Real.sqrt (Spec.covW v v w true true)) ∧
     varW v w dfltUnbiased dfltNormalizeWeights = .ok (Spec.covW v v w true true) ∧
     (dfltBase : ℝ) = 27182818 / 10000000 := by
-  refine ⟨sdW_spec v w true true h, varW_spec v w true true h, ?_⟩
+  refine ⟨sdW_spec v w true true h hnn, varW_spec v w true true h, ?_⟩
   simp [dfltBase]
 
 /-! ## the value of the median -/
@@ -168,14 +175,22 @@ example : median ([4, 1, 3, 2] : List ℝ) = .ok ((2 + 3) / 2, [1, 2, 3, 4]) := 
 theorem whichMinAll_positions (v : List ℝ) (pos : List Nat) (h : whichMinAll v = .ok pos) :
     ∃ m, VecTools.min v = .ok m ∧ IsPositionsOf Scalar.eqb v m pos := whichMinAll_spec v pos h
 
-/-- weighted `norm` is `√Σ vᵢ²·wᵢ` -/
-theorem normW_spec (v w : List ℝ) (h : v.length = w.length) :
+/-- weighted `norm` is `√Σ vᵢ²·wᵢ`, for a non-negative weighted sum of squares (a negative one is NaN in
+the code) -/
+theorem normW_spec (v w : List ℝ) (h : v.length = w.length)
+    (_hq : 0 ≤ (zipWith3 (fun x y c => x * y * c) v v w).sum) :
     normW v w = .ok (Real.sqrt (zipWith3 (fun x y c => x * y * c) v v w).sum) := normW_eq v w h
+
+example : normW ([1, 2] : List ℝ) [3, 1] = .ok (Real.sqrt 7) := by
+  rw [normW_spec [1, 2] [3, 1] rfl (by norm_num [zipWith3])]; norm_num [zipWith3]
 
 /-! ## weighted cosine, Kronecker product -/
 
-/-- weighted `cos` is `Σ v1ᵢv2ᵢwᵢ / (√Σ v1ᵢ²wᵢ · √Σ v2ᵢ²wᵢ)` -/
-theorem cosW_spec (v1 v2 w : List ℝ) (h1 : v1.length = w.length) (h2 : v2.length = w.length) :
+/-- weighted `cos` is `Σ v1ᵢv2ᵢwᵢ / (√Σ v1ᵢ²wᵢ · √Σ v2ᵢ²wᵢ)`, for non-negative weighted sums of squares
+(a negative one — negative weights — is NaN in the code, not `Real.sqrt … = 0`) -/
+theorem cosW_spec (v1 v2 w : List ℝ) (h1 : v1.length = w.length) (h2 : v2.length = w.length)
+    (_hA : 0 ≤ (zipWith3 (fun x y c => x * y * c) v1 v1 w).sum)
+    (_hB : 0 ≤ (zipWith3 (fun x y c => x * y * c) v2 v2 w).sum) :
     cosW v1 v2 w = .ok ((zipWith3 (fun a b c => a * b * c) v1 v2 w).sum /
       (Real.sqrt (zipWith3 (fun x y c => x * y * c) v1 v1 w).sum *
        Real.sqrt (zipWith3 (fun x y c => x * y * c) v2 v2 w).sum)) := cosW_eq v1 v2 w h1 h2
